@@ -103,7 +103,11 @@ fn fold_mem(files: &[String], order: &[usize]) -> Result<(String, usize), String
     Ok((String::from_utf8(out).map_err(|e| e.to_string())?, nerr))
 }
 
-const CORPUS: [(&str, &str, bool); 10] = [
+const CORPUS: [(&str, &str, bool); 14] = [
+    ("UserId", "#[typeshare]\npub struct UserId { pub v: u32 }\n", true),
+    ("UserID", "#[typeshare]\npub struct UserID { pub w: String }\n", true),
+    ("Qualified", "#[typeshare::typeshare]\npub struct Qualified { pub q: u32 }\n", true),
+    ("Event", "#[typeshare]\n#[serde(tag = \"type\", content = \"content\")]\npub enum Event { Started { at: u32 }, Stopped {}, Heartbeat { #[serde(skip)] seq: u32 } }\n", true),
     ("AuthenticationRequest", "#[typeshare]\npub struct AuthenticationRequest { pub a: u32 }\n", true),
     ("AuthenticationResponse", "#[typeshare]\npub struct AuthenticationResponse { pub r: AuthenticationRequest }\n", true),
     ("Zed", "#[typeshare]\npub struct Zed { pub a: u32 }\n", true),
@@ -115,11 +119,38 @@ const CORPUS: [(&str, &str, bool); 10] = [
     ("BETA", "#[typeshare]\npub const BETA: u32 = 2;\n", true),
     ("Unrepresentable", "#[typeshare]\npub struct Unrepresentable { pub x: u64 }\n", false),
 ];
+fn kotlin_helpers(files: &[String], order: &[usize]) -> Option<String> {
+    use std::collections::{BTreeMap, HashMap};
+    use typeshare_core::language::{Kotlin, Language};
+    let mut crates: BTreeMap<CrateName, ParsedData> = BTreeMap::new();
+    for &i in order { if let Some(d) = parse_named(&files[i], &format!("f{}.rs", i)) { let cn = d.crate_name.clone(); *crates.entry(cn).or_default() += d; } }
+    typeshare_core::reconcile::reconcile_aliases(&mut crates);
+    let mut out: Vec<u8> = Vec::new();
+    for (_, mut data) in crates {
+        data.consts.clear(); // Kotlin has no const support (todo!()): seen-but-undecided, not part of this check
+        let mut lang = Kotlin { package: "p".into(), no_version_header: true, ..Default::default() };
+        if let Err(e) = lang.generate_types(&mut out, &HashMap::new(), data) { return Some(format!("kotlin generation failed: {}", e)); }
+    }
+    let out = String::from_utf8(out).unwrap();
+    for v in ["Started", "Stopped", "Heartbeat"] {
+        let helper = format!("Event{}Inner", v);
+        let uses = out.matches(&format!("val content: {}", helper)).count();
+        let defs = out.matches(&format!("class {} ", helper)).count() + out.matches(&format!("object {}\n", helper)).count();
+        if uses != 1 || defs != 1 { return Some(format!("Kotlin: helper type {} is used {} time(s) and defined {} time(s) (C03: one helper per struct variant, defined exactly once)", helper, uses, defs)); }
+    }
+    None
+}
 const NFILES: usize = 3;
 /// distribution k assigns corpus item i to file ((i * (k + 1) + k) % NFILES), reversed inside the file for odd k
 fn distribution(k: usize) -> Vec<String> {
     let mut files = vec![String::new(); NFILES];
     let idx: Vec<usize> = if k % 2 == 1 { (0..CORPUS.len()).rev().collect() } else { (0..CORPUS.len()).collect() };
+    if k >= 6 {
+        // one item alone in its own file (k = 6: the path-qualified attribute, k = 7: the unsupported item), the rest over the other two
+        let alone = if k == 6 { 2 } else { CORPUS.len() - 1 };
+        for i in idx { if i == alone { files[2].push_str(CORPUS[i].1); } else { files[i % 2].push_str(CORPUS[i].1); } }
+        return files;
+    }
     for i in idx { files[(i * (k + 1) + k) % NFILES].push_str(CORPUS[i].1); }
     files
 }
@@ -138,6 +169,11 @@ fn merge_case(k: usize, order: &[usize]) -> Option<String> {
         if !*good && n != 0 { return Some(format!("unsupported item {} was generated", name)); }
     }
     if got.1 != 1 { return Some(format!("{} parse errors recorded after the merge, expected exactly 1 (the unsupported item must be reported, not silently omitted)", got.1)); }
+    // C06: the same items split differently across files must give the same single-file output
+    let base0 = match fold_mem(&distribution(0), &[0, 1, 2]) { Ok(b) => b, Err(e) => return Some(format!("generation failed: {}", e)) };
+    if base.0 != base0.0 { return Some(format!("single-file output depends on how the items are split across files: distribution {} vs distribution 0 differ (C06)", k)); }
+    // C03: every helper type a back end derives from a struct variant is defined exactly once (Kotlin)
+    if let Some(m) = kotlin_helpers(&files, order) { return Some(m); }
     if got.0 != base.0 { return Some(format!("output bytes differ from arrival order [0,1,2] (C06): {:?} vs {:?}", &got.0.chars().take(200).collect::<String>(), &base.0.chars().take(200).collect::<String>())); }
     None
 }
@@ -268,7 +304,7 @@ fn order_case(src: &str) -> Option<String> {
     None
 }
 
-const WRAPPERS: [&str; 10] = ["T", "Vec<T>", "[T; 2]", "&'static [T]", "Option<T>", "HashMap<String, T>", "Wrap<T>", "Wrap<Vec<T>>", "Foreign<T>", "Vec<Option<T>>"];
+const WRAPPERS: [&str; 12] = ["T", "Vec<T>", "[T; 2]", "&'static [T]", "Option<T>", "HashMap<String, T>", "Wrap<T>", "Wrap<Vec<T>>", "Foreign<T>", "Vec<Option<T>>", "Wrap<Wrap<T>>", "Foreign<Foreign<T>>"];
 const NODES: [&str; 4] = ["Aa", "Bb", "Cc", "Dd"];
 /// program with items Aa..Dd (n of them) whose references are the edges in `code` (bit i*n+j: i refers to j),
 /// every reference wrapped in WRAPPERS[w]; holder: 0 struct field, 1 tuple variants, 2 struct-variant fields, 3 mixed by node
@@ -334,8 +370,8 @@ fn main() {
                 println!("input passes"); std::process::exit(0);
             }
             let mut tried = 0;
-            for k in 0..6 { for p in permutations(NFILES) { tried += 1; if let Some(m) = merge_case(k, &p) { report(k, &p, m); } } }
-            println!("no failing input among {} (distribution of 10 items over 3 files, arrival order) pairs", tried);
+            for k in 0..8 { for p in permutations(NFILES) { tried += 1; if let Some(m) = merge_case(k, &p) { report(k, &p, m); } } }
+            println!("no failing input among {} (distribution of {} items over 3 files, arrival order) pairs; every output also compared with distribution 0", tried, CORPUS.len());
             std::process::exit(0);
         }
         Some("codable") => {
@@ -421,7 +457,7 @@ fn main() {
                     match panic::catch_unwind(move || order_case(&src)) { Ok(None) => {}, Ok(Some(m)) => report(n, code, w, h, m), Err(_) => report(n, code, w, h, "panicked".into()) }
                 } }
             } }
-            println!("no failing input among {} programs (all DAGs on 2..4 items x 10 reference positions x 4 item shapes)", tried);
+            println!("no failing input among {} programs (all DAGs on 2..4 items x {} reference positions x 4 item shapes)", tried, WRAPPERS.len());
             std::process::exit(0);
         }
         _ => { eprintln!("usage: verif-replay rename <rule> <field|variant> <ident>"); std::process::exit(2); }
